@@ -469,6 +469,59 @@ def build(eng, fixture, window, confname="default"):
 
 
 # ---------------------------------------------------------------- configurations
+_LIT = {}
+
+
+def _option_literals(mod, k):
+    import ast
+    import inspect
+
+    key = (mod.__name__, k)
+    if key in _LIT:
+        return _LIT[key]
+    out = set()
+    try:
+        tree = ast.parse(inspect.getsource(mod))
+    except Exception:
+        _LIT[key] = out
+        return out
+
+    def consts(n):
+        if isinstance(n, ast.Constant) and isinstance(n.value, str):
+            return [n.value]
+        if isinstance(n, (ast.List, ast.Tuple, ast.Set)):
+            return [c for e in n.elts for c in consts(e)]
+        return []
+
+    for n in ast.walk(tree):
+        if isinstance(n, ast.Compare):
+            sides = [n.left] + list(n.comparators)
+            if any(isinstance(x, ast.Attribute) and x.attr == k for x in sides):
+                for x in sides:
+                    out.update(consts(x))
+    _LIT[key] = out
+    return out
+
+
+def option_domain(r, k):
+    """values the string option k of rule r can take, as far as the shipped source tells"""
+    import sys as _s
+
+    v = getattr(r, k, None)
+    if not isinstance(v, str) or k in ("severity", "user_error_message", "regex", "indent_style", "case", "units"):
+        return []
+    d = {v}
+    for cls in type(r).__mro__:
+        m = _s.modules.get(cls.__module__)
+        if m is not None and cls.__module__.startswith("vsg."):
+            d |= _option_literals(m, k)
+    if v in ("yes", "no"):
+        d |= {"yes", "no"}
+    if v in ("ignore", "add_new_line", "remove_new_line") and len(d) == 1:
+        d |= {"ignore", "add_new_line", "remove_new_line"}
+    return sorted(d)
+
+
 def _flip_conf(kind):
     import copy
 
@@ -522,6 +575,23 @@ def _flip_conf(kind):
         for r in rl.rules:
             if r.disable and not rule_list.is_rule_deprecated(r):
                 rules[r.unique_id] = {"disable": False}
+    elif kind.startswith("flipI"):
+        # option sweep: every string-valued option of every rule takes the r-th *other* value of its domain, the domain being read off the
+        # rule's own source (string literals the option is compared with, in the modules of the rule's class hierarchy)
+        r_ = int(kind[5:])
+        o = vhdlFile_pkg.vhdlFile([""])
+        rl = rule_list.rule_list(o, base.severity_list)
+        for r in rl.rules:
+            if rule_list.is_rule_deprecated(r):
+                continue
+            dd = {}
+            for k in r.configuration:
+                v = getattr(r, k, None)
+                alts = [x for x in option_domain(r, k) if x != v]
+                if alts:
+                    dd[k] = alts[r_ % len(alts)]
+            if dd:
+                rules[r.unique_id] = dd
     if kind == "flipG":
         # user-ordered pragma patterns (single before open/close, as a user may well write them); precedence must not depend on the order
         pats = base.dConfig["pragma"]["patterns"]
@@ -533,7 +603,7 @@ def _flip_conf(kind):
 
 
 def get_conf2(name):
-    if name in ("flipA", "flipB", "flipC", "flipD", "flipE", "flipF", "flipG", "flipH"):
+    if name in ("flipA", "flipB", "flipC", "flipD", "flipE", "flipF", "flipG", "flipH") or name.startswith("flipI"):
         if name not in _CONF:
             _CONF[name] = _flip_conf(name)
         return _CONF[name]
